@@ -75,7 +75,7 @@ def walk(t, node):
 def construct(cfg):
     t, how = cfg["tree"], cfg.get("how", "arg")
     # every other configuration shares structurally identical sub-collections as one object
-    memo = {} if len(json.dumps(t)) % 2 == 0 else None
+    memo = {} if (len(json.dumps(t)) % 2 == 0 or (t["k"] == "dict" and t.get("keys", [None])[0] == "rx")) else None
     if how == "annot" and t["k"] == "dict":
         ann = {k: to_fields(c, memo) for k, c in zip(t["keys"], t["kids"])}
         base = csr.Register
@@ -122,7 +122,11 @@ class Adapter:
             steps = []
         if not steps:
             return out
-        fields = walk(cfg["tree"], reg.f)
+        try:
+            fields = walk(cfg["tree"], reg.f)
+        except (KeyError, IndexError, AttributeError, TypeError) as e:
+            raise common.Violation("field-collection", f"the register built from {json.dumps(cfg['tree'])[:160]} ({cfg.get('how')}) "
+                                   f"does not expose the declared field collection: {type(e).__name__} {e}")
         e = reg.element
         ins, outs = {}, {"r_data": e.r_data} if e.access.readable() else {}
         if e.access.readable():
@@ -169,6 +173,13 @@ class Adapter:
                 return {"k": "dict", "keys": r.sample(["a", "b", "c", "d", "_e"], n), "kids": [tree(depth + 1) for _ in range(n)]}
             return {"k": "list", "kids": [tree(depth + 1) for _ in range(n)]}
         t = tree(0)
+        if r.random() < 0.25:
+            # one list (or dict) referenced from two places, one level down: {"rx": {"lane": L}, "tx": {"lane": L}}
+            shared = tree(2)
+            if shared["k"] == "leaf":
+                shared = {"k": "list", "kids": [shared, tree(3)]}
+            t = {"k": "dict", "keys": ["rx", "tx", "z"],
+                 "kids": [{"k": "dict", "keys": ["lane"], "kids": [shared]}, {"k": "dict", "keys": ["lane"], "kids": [shared]}, t]}
         return {"access": r.choice(["r", "w", "rw", "rw", "rw"]), "tree": t, "how": r.choice(["arg", "annot", "subclass"])}
 
     def random_schedule(self, r, cfg, length):
